@@ -15,12 +15,14 @@ from . import common as C
 from . import translate
 from . import translate_vec
 from . import translate_sets
+from . import translate_loaders
 
 # per-group bridge families: (lemma prefix, umbrella module, lemma -> module table, unit prefix in t1_fallback_units,
 #                           key of the `untranslatable unit -> lemmas about it / its callers` table)
 BRIDGE_FAMILIES = [
   ('DK.BridgeVec.', 'DK.Lemmas.BridgeVec', translate_vec.bridge_modules, 'vec.', 't1_vec_fallback_lemmas'),
   ('DK.BridgeSets.', 'DK.Lemmas.BridgeSets', translate_sets.bridge_modules, 'sets.', 't1_sets_fallback_lemmas'),
+  ('DK.BridgeLoaders.', 'DK.Lemmas.BridgeLoaders', translate_loaders.bridge_modules, 'load.', 't1_load_fallback_lemmas'),
 ]
 
 
@@ -73,7 +75,7 @@ def run(pid, tier, seed, replay=None):
   if prop.uses_t1:
     t1 = translate.regenerate_all(C.REPO)
     info.update({'t1_units': t1['t1_units'], 't1_fallback_units': t1['t1_fallback_units']})
-    for k in ('t1_vec_t2_only', 't1_sets_t2_only'):
+    for k in ('t1_vec_t2_only', 't1_sets_t2_only', 't1_load_t2_only'):
       if t1.get(k):
         info[k] = t1[k]      # vector / set-level units read but outside the T1v / T1s subset: tied by T2 only
     elsewhere = []
@@ -115,7 +117,7 @@ def run(pid, tier, seed, replay=None):
   ok_proofs, log_proofs = C.lake_build(modules)
   axioms = {}
   if ok_proofs:
-    vec_groups = [m for m in groups if m.startswith(('DK.Lemmas.BridgeVec', 'DK.Lemmas.BridgeSets'))]
+    vec_groups = [m for m in groups if m.startswith(('DK.Lemmas.BridgeVec', 'DK.Lemmas.BridgeSets', 'DK.Lemmas.BridgeLoaders'))]
     for m in groups:
       if m not in vec_groups:
         ax, raw = C.audit_axioms(m, groups[m])
